@@ -7,6 +7,7 @@
    is C17_file_later_messages_unaffected. *)
 From Coq Require Import List NArith Bool.
 From RV Require Import Targets.TargetsModel Targets.TargetsProofs.
+From RV Require Ingress.IngressModel Targets.TargetsRegister.
 Import ListNotations.
 Local Open Scope N_scope.
 
@@ -79,26 +80,28 @@ Proof. exact one_line_each_refuted_csv. Qed.
 Print Assumptions C17_one_line_each_csv_refuted.
 
 (* mqtt-out: for every interleaving of arriving updates, publish-loop steps,
-   ingress registrations and client hand-overs in which the publish loop only
-   runs while it has a client, once the queue is drained the client has been
-   handed exactly the addressed messages, once, in emission order *)
+   update_info calls on the shared ingress register, client hand-overs and
+   reconfigurations in which the publish loop only runs while it has a client,
+   once the queue is drained the client has been handed exactly the addressed
+   messages, once, in emission order, each with the topic template and the
+   ingress metadata of the moment it was emitted ([mqtt_spec]) *)
 Theorem C17_mqtt_once_in_order_partial : forall c h,
   publishes_connected false h = true ->
-  ms_published (mqtt_drain (mqtt_run c h)) = mqtt_spec c [] h.
+  sent (mqtt_drain (mqtt_run c h)) = mqtt_spec c [] h.
 Proof. exact mqtt_once_in_order. Qed.
 Print Assumptions C17_mqtt_once_in_order_partial.
 
 (* ... and at every moment before that, a prefix of them *)
 Theorem C17_mqtt_published_is_prefix_partial : forall c h,
   publishes_connected false h = true ->
-  exists rest, mqtt_spec c [] h = ms_published (mqtt_run c h) ++ rest.
+  exists rest, mqtt_spec c [] h = sent (mqtt_run c h) ++ rest.
 Proof. exact mqtt_published_prefix. Qed.
 Print Assumptions C17_mqtt_published_is_prefix_partial.
 
 (* without the hypothesis it is false: what the loop takes off the queue while
    there is no client is discarded (known finding C17-mqtt-no-client) *)
 Theorem C17_mqtt_once_in_order_refuted :
-  exists c h, ms_published (mqtt_drain (mqtt_run c h)) <> mqtt_spec c [] h.
+  exists c h, sent (mqtt_drain (mqtt_run c h)) <> mqtt_spec c [] h.
 Proof. exact mqtt_publish_without_client_refuted. Qed.
 Print Assumptions C17_mqtt_once_in_order_refuted.
 
@@ -106,13 +109,94 @@ Print Assumptions C17_mqtt_once_in_order_refuted.
    demanded sequence with some messages left out - never a duplicate, never out of
    order, never a message nobody addressed to the target *)
 Theorem C17_mqtt_never_duplicates_reorders_invents : forall c h,
-  sub (ms_published (mqtt_drain (mqtt_run c h))) (mqtt_spec c [] h).
+  sub (sent (mqtt_drain (mqtt_run c h))) (mqtt_spec c [] h).
 Proof. exact mqtt_published_sub_spec. Qed.
 Print Assumptions C17_mqtt_never_duplicates_reorders_invents.
 
+(* the demand, message by message: every emitted message, paired with the
+   configuration and the register of its moment ... *)
+Theorem C17_mqtt_spec_message_by_message : forall h c r,
+  mqtt_spec c r h = flat_map demanded (stamped c r h).
+Proof. exact mqtt_spec_stamped. Qed.
+Print Assumptions C17_mqtt_spec_message_by_message.
+
+(* ... where the register of its moment is what ALL the update_info calls before
+   the emission, and none after it, have produced *)
+Theorem C17_mqtt_stamp_is_register_at_emission : forall h1 ms h2 c r,
+  stamped c r (h1 ++ MUpdate (UOutput ms) :: h2) =
+  stamped c r h1 ++ map (pair (cfg_after c h1, reg_after r h1)) ms
+  ++ stamped (cfg_after c h1) (reg_after r h1) h2.
+Proof. exact stamped_at. Qed.
+Print Assumptions C17_mqtt_stamp_is_register_at_emission.
+
+(* EVERY history, EVERY moment, no hypothesis: whatever the client has been
+   handed is an emitted message with the component's name, carrying the ingress
+   metadata the register held when that message was turned into a SenderMsg
+   (direct_update, before it is queued) - never an older snapshot, never a later
+   state - and the topic of the template configured at that moment *)
+Theorem C17_mqtt_published_metadata_is_current : forall c h p,
+  In p (ms_published (mqtt_run c h)) ->
+  exists h1 u h2 m,
+    h = h1 ++ MUpdate u :: h2 /\ In m (msgs_of u) /\ m_name m = mc_name c /\
+    p_msg p = mk_send (cfg_after c h1) (reg_after [] h1) m.
+Proof. exact mqtt_published_metadata. Qed.
+Print Assumptions C17_mqtt_published_metadata_is_current.
+
+(* the target keeps no copy of the shared state: after any history its view of
+   the register is the register the update_info calls made, its configuration
+   the one the Reconfigure commands made *)
+Theorem C17_mqtt_target_keeps_no_copy : forall h s,
+  ms_reg (fold_left mqtt_step h s) = reg_after (ms_reg s) h /\
+  ms_cfg (fold_left mqtt_step h s) = cfg_after (ms_cfg s) h.
+Proof. exact run_shared_state. Qed.
+Print Assumptions C17_mqtt_target_keeps_no_copy.
+
+(* an update_info that no emission follows (the message is already queued, or
+   published) changes nothing *)
+Theorem C17_mqtt_later_update_info_invisible : forall c h1 id new h2,
+  forallb (fun e => negb (is_mupdate e)) h2 = true ->
+  mqtt_spec c [] (h1 ++ MInfo id new :: h2) = mqtt_spec c [] (h1 ++ h2).
+Proof. exact later_update_info_invisible. Qed.
+Print Assumptions C17_mqtt_later_update_info_invisible.
+
+(* what the register holds for an id: the merge, in order, of the update_info
+   calls for THAT id (None before the first: an id that is only registered has
+   no metadata) ... *)
+Theorem C17_register_entry_is_merge_of_its_updates : forall h r id,
+  reg_get (reg_after r h) id = fold_left merge_opt (updates_for id h) (reg_get r id).
+Proof. exact reg_get_after. Qed.
+Print Assumptions C17_register_entry_is_merge_of_its_updates.
+
+(* ... field by field: the last value any of them supplied for the field *)
+Theorem C17_register_field_is_last_supplied : forall p, In p info_fields -> forall h id,
+  fld p (reg_get (reg_after [] h) id) = fold_left upd_field (map p (updates_for id h)) None.
+Proof. exact field_after. Qed.
+Print Assumptions C17_register_field_is_last_supplied.
+
+(* ... and it is the register of property C14: after every history of register()
+   and update_info calls, the register this model reads answers every get like
+   the model of src/ingress.rs that the C14 engine ties to the real Register *)
+Theorem C17_register_is_the_C14_register : forall cs id,
+  option_map TargetsRegister.to_c14 (reg_get (fold_left TargetsRegister.t_step cs []) id)
+  = IngressModel.reg_get (fold_left TargetsRegister.c14_step cs IngressModel.reg_new) id.
+Proof. exact TargetsRegister.registers_agree_from_new. Qed.
+Print Assumptions C17_register_is_the_C14_register.
+
+(* reconfiguration: the name the target answers to cannot change; the QoS of a
+   publication is the configured one as long as no reconfiguration changes it *)
+Theorem C17_mqtt_name_survives_reconfigure : forall h c, mc_name (cfg_after c h) = mc_name c.
+Proof. exact cfg_after_name. Qed.
+Print Assumptions C17_mqtt_name_survives_reconfigure.
+
+Theorem C17_mqtt_qos_configured : forall c h,
+  forallb (keeps_qos (mc_qos c)) h = true ->
+  Forall (fun p => p_qos p = mc_qos c) (ms_published (mqtt_drain (mqtt_run c h))).
+Proof. exact qos_configured. Qed.
+Print Assumptions C17_mqtt_qos_configured.
+
 (* selection: exactly the messages whose name is the component's name *)
 Theorem C17_mqtt_selects_exactly : forall c r ms,
-  select c r ms = map (mk_pub c r) (filter (addressed c) ms).
+  select c r ms = map (mk_send c r) (filter (addressed c) ms).
 Proof. exact select_filter. Qed.
 Print Assumptions C17_mqtt_selects_exactly.
 
@@ -140,7 +224,11 @@ Proof. exact topic_no_placeholder. Qed.
 Print Assumptions C17_mqtt_topic_without_placeholder.
 
 (* non-vacuity: a clean history with every record kind, interleaved with route
-   traffic; and an mqtt history where one of two messages is addressed *)
+   traffic; an mqtt history where one of two messages is addressed; and one in
+   which the metadata of an ingress id changes between two messages of that id
+   (no entry yet, then unit + address, then the name added, another id touched, template
+   and QoS reconfigured with a message still queued): each message carries the metadata
+   and the template of its emission, and the QoS of its publication *)
 Example C17_example :
   let e := MkEntry 5 (Some 65000) None (Some 3) 1 0 None None None None in
   let us := [USingle (MkRoute 1 true);
@@ -154,7 +242,18 @@ Example C17_example :
   length (file_lines FCsv us) = 5%nat /\
   nth 3 (file_lines FJsonMin us) LGarbage = LText [104; 105] /\
   let c := MkCfg [109] [114; 47; 123; 105; 100; 125] 2 in
-  map p_topic (mqtt_observe c [MClient true; MRegister 1 77;
+  let addr := MkInfo (Some 1) None (Some 7) None None None None None in
+  let name := MkInfo None None None None None None (Some 4) None in
+  map (fun p => s_topic (p_msg p)) (mqtt_observe c [MClient true; MInfo 1 addr;
        MUpdate (UOutput [MkOsm [120] [97] (RCustom 1 1) None; MkOsm [109] [98] (RCustom 2 2) (Some 1)]);
-       MPublish; MUpdate (USingle (MkRoute 1 true))]) = [[114; 47; 98]].
+       MPublish; MUpdate (USingle (MkRoute 1 true))]) = [[114; 47; 98]] /\
+  let m k := MUpdate (UOutput [MkOsm [109] [98] (RCustom k k) (Some 1)]) in
+  let h := [MClient true; m 1; MPublish; MInfo 1 addr; m 2; MInfo 1 name; MInfo 2 name; m 3; MPublish;
+            MReconf [120] 1; m 4; MInfo 1 addr] in
+  publishes_connected false h = true /\
+  map (fun p => (s_topic (p_msg p), p_qos p, s_ing (p_msg p))) (mqtt_observe c h) =
+    [([114; 47; 98], 2, None);
+     ([114; 47; 98], 2, Some addr);
+     ([114; 47; 98], 1, Some (MkInfo (Some 1) None (Some 7) None None None (Some 4) None));
+     ([120], 1, Some (MkInfo (Some 1) None (Some 7) None None None (Some 4) None))].
 Proof. vm_compute. repeat split; reflexivity. Qed.
